@@ -922,10 +922,29 @@ func (c *Ctx) c16StructCopies() {
 		}
 	})
 	// (b) explicit copies: *p in value context, assignment/argument of struct-typed expressions
+	// (*p).f is the field access p.f written out, &*p is p: no copy is made
+	notCopies := map[*ast.StarExpr]bool{}
+	for _, f := range c.Pkg.Syntax {
+		ast.Inspect(f, func(x ast.Node) bool {
+			switch y := x.(type) {
+			case *ast.SelectorExpr:
+				if se, ok := ast.Unparen(y.X).(*ast.StarExpr); ok {
+					if sl := info.Selections[y]; sl != nil && sl.Kind() == types.FieldVal {
+						notCopies[se] = true
+					}
+				}
+			case *ast.UnaryExpr:
+				if se, ok := ast.Unparen(y.X).(*ast.StarExpr); ok && y.Op == token.AND {
+					notCopies[se] = true
+				}
+			}
+			return true
+		})
+	}
 	for _, f := range c.Pkg.Syntax {
 		ast.Inspect(f, func(x ast.Node) bool {
 			se, ok := x.(*ast.StarExpr)
-			if !ok {
+			if !ok || notCopies[se] {
 				return true
 			}
 			tv, ok := info.Types[se]
